@@ -70,4 +70,130 @@ abbrev InFragment2 (env : RequestEnv) (e : Expr) : Bool := InFragmentM .strict e
 abbrev InFragment2List (env : RequestEnv) (es : List Expr) : Bool := InFragmentMList .strict env es
 abbrev InFragment2KVs (env : RequestEnv) (kvs : List (String × Expr)) : Bool := InFragmentMKVs .strict env kvs
 
+-- record literals have distinct keys (Rust's `ExprKind::Record` is a `BTreeMap`)
+mutual
+def RecordKeysDistinct : Expr → Bool
+  | .lit _ | .var _ | .slot _ | .unknown _ _ => true
+  | .ite c t e => RecordKeysDistinct c && RecordKeysDistinct t && RecordKeysDistinct e
+  | .and a b | .or a b | .binaryApp _ a b => RecordKeysDistinct a && RecordKeysDistinct b
+  | .unaryApp _ a | .getAttr a _ | .hasAttr a _ | .like a _ | .is a _ => RecordKeysDistinct a
+  | .call _ args | .set args => RecordKeysDistinctList args
+  | .record kvs => RecordKeysDistinctKVs kvs && decide ((kvs.map (·.1)).Nodup)
+def RecordKeysDistinctList : List Expr → Bool
+  | [] => true
+  | e :: es => RecordKeysDistinct e && RecordKeysDistinctList es
+def RecordKeysDistinctKVs : List (String × Expr) → Bool
+  | [] => true
+  | (_, e) :: es => RecordKeysDistinct e && RecordKeysDistinctKVs es
+end
+
+
+-- every slot of the expression has a type in the environment
+mutual
+def SlotsLinked (env : RequestEnv) : Expr → Bool
+  | .slot .principal => env.principalSlot.isSome
+  | .slot .resource => env.resourceSlot.isSome
+  | .lit _ | .var _ | .unknown _ _ => true
+  | .ite c t e => SlotsLinked env c && SlotsLinked env t && SlotsLinked env e
+  | .and a b | .or a b | .binaryApp _ a b => SlotsLinked env a && SlotsLinked env b
+  | .unaryApp _ a | .getAttr a _ | .hasAttr a _ | .like a _ | .is a _ => SlotsLinked env a
+  | .call _ args | .set args => SlotsLinkedList env args
+  | .record kvs => SlotsLinkedKVs env kvs
+def SlotsLinkedList (env : RequestEnv) : List Expr → Bool
+  | [] => true
+  | e :: es => SlotsLinked env e && SlotsLinkedList env es
+def SlotsLinkedKVs (env : RequestEnv) : List (String × Expr) → Bool
+  | [] => true
+  | (_, e) :: es => SlotsLinked env e && SlotsLinkedKVs env es
+end
+
+theorem binOpOK_all (op : BinaryOp) : binOpOK op = true := by cases op <;> rfl
+
+-- the strict fragment is: distinct record keys and linked slots
+mutual
+theorem inFragment2_of (env : RequestEnv) : ∀ (e : Expr), RecordKeysDistinct e = true → SlotsLinked env e = true →
+    InFragment2 env e = true
+  | .lit _, _, _ => rfl
+  | .var _, _, _ => rfl
+  | .unknown _ _, _, _ => rfl
+  | .slot .principal, _, h => by simpa [SlotsLinked, InFragmentM] using h
+  | .slot .resource, _, h => by simpa [SlotsLinked, InFragmentM] using h
+  | .ite c t e, hk, hl => by
+    simp only [RecordKeysDistinct, Bool.and_eq_true] at hk
+    simp only [SlotsLinked, Bool.and_eq_true] at hl
+    simp only [InFragmentM, Bool.and_eq_true, ValidationMode.isStrict, Bool.true_or, and_true]
+    exact ⟨⟨inFragment2_of env c hk.1.1 hl.1.1, inFragment2_of env t hk.1.2 hl.1.2⟩, inFragment2_of env e hk.2 hl.2⟩
+  | .and a b, hk, hl => by
+    simp only [RecordKeysDistinct, Bool.and_eq_true] at hk
+    simp only [SlotsLinked, Bool.and_eq_true] at hl
+    simp only [InFragmentM, Bool.and_eq_true]
+    exact ⟨inFragment2_of env a hk.1 hl.1, inFragment2_of env b hk.2 hl.2⟩
+  | .or a b, hk, hl => by
+    simp only [RecordKeysDistinct, Bool.and_eq_true] at hk
+    simp only [SlotsLinked, Bool.and_eq_true] at hl
+    simp only [InFragmentM, Bool.and_eq_true]
+    exact ⟨inFragment2_of env a hk.1 hl.1, inFragment2_of env b hk.2 hl.2⟩
+  | .binaryApp op a b, hk, hl => by
+    simp only [RecordKeysDistinct, Bool.and_eq_true] at hk
+    simp only [SlotsLinked, Bool.and_eq_true] at hl
+    simp only [InFragmentM, Bool.and_eq_true, binOpOK_all, true_and]
+    exact ⟨inFragment2_of env a hk.1 hl.1, inFragment2_of env b hk.2 hl.2⟩
+  | .unaryApp _ a, hk, hl => by
+    simp only [RecordKeysDistinct] at hk
+    simp only [SlotsLinked] at hl
+    simp only [InFragmentM]
+    exact inFragment2_of env a hk hl
+  | .getAttr a _, hk, hl => by
+    simp only [RecordKeysDistinct] at hk
+    simp only [SlotsLinked] at hl
+    simp only [InFragmentM]
+    exact inFragment2_of env a hk hl
+  | .hasAttr a _, hk, hl => by
+    simp only [RecordKeysDistinct] at hk
+    simp only [SlotsLinked] at hl
+    simp only [InFragmentM]
+    exact inFragment2_of env a hk hl
+  | .like a _, hk, hl => by
+    simp only [RecordKeysDistinct] at hk
+    simp only [SlotsLinked] at hl
+    simp only [InFragmentM]
+    exact inFragment2_of env a hk hl
+  | .is a _, hk, hl => by
+    simp only [RecordKeysDistinct] at hk
+    simp only [SlotsLinked] at hl
+    simp only [InFragmentM]
+    exact inFragment2_of env a hk hl
+  | .call _ args, hk, hl => by
+    simp only [RecordKeysDistinct] at hk
+    simp only [SlotsLinked] at hl
+    simp only [InFragmentM]
+    exact inFragment2List_of env args hk hl
+  | .set args, hk, hl => by
+    simp only [RecordKeysDistinct] at hk
+    simp only [SlotsLinked] at hl
+    simp only [InFragmentM, Bool.and_eq_true, ValidationMode.isStrict, Bool.true_or, and_true]
+    exact inFragment2List_of env args hk hl
+  | .record kvs, hk, hl => by
+    simp only [RecordKeysDistinct, Bool.and_eq_true] at hk
+    simp only [SlotsLinked] at hl
+    simp only [InFragmentM, Bool.and_eq_true]
+    exact ⟨inFragment2KVs_of env kvs hk.1 hl, hk.2⟩
+theorem inFragment2List_of (env : RequestEnv) : ∀ (es : List Expr), RecordKeysDistinctList es = true → SlotsLinkedList env es = true →
+    InFragment2List env es = true
+  | [], _, _ => rfl
+  | e :: es, hk, hl => by
+    simp only [RecordKeysDistinctList, Bool.and_eq_true] at hk
+    simp only [SlotsLinkedList, Bool.and_eq_true] at hl
+    simp only [InFragmentMList, Bool.and_eq_true]
+    exact ⟨inFragment2_of env e hk.1 hl.1, inFragment2List_of env es hk.2 hl.2⟩
+theorem inFragment2KVs_of (env : RequestEnv) : ∀ (kvs : List (String × Expr)), RecordKeysDistinctKVs kvs = true →
+    SlotsLinkedKVs env kvs = true → InFragment2KVs env kvs = true
+  | [], _, _ => rfl
+  | (_, e) :: es, hk, hl => by
+    simp only [RecordKeysDistinctKVs, Bool.and_eq_true] at hk
+    simp only [SlotsLinkedKVs, Bool.and_eq_true] at hl
+    simp only [InFragmentMKVs, Bool.and_eq_true]
+    exact ⟨inFragment2_of env e hk.1 hl.1, inFragment2KVs_of env es hk.2 hl.2⟩
+end
+
 end Cedar.C03
